@@ -8,6 +8,7 @@ import numpy as np
 
 from ..alg import Algebra, to_sympy_src, verdict
 from ..domains import Poly
+from ..dfdomain import CT, DF, to_sympy
 from ..interp import (NOT_HANDLED, TOP, Closure, Ext, Hooks, Interp, Obj, guard, site_of)
 from ..model import AnalysisError, norm_stmt, walk_no_nested
 from ..report import Ctx
@@ -216,29 +217,187 @@ def _r153(ctx: Ctx) -> None:
             raise AnalysisError('R15.3', site, f'{what}: {detail}')
         ctx.ob('R15.3', site, what, ok, f'code computes {src}; {detail}', key=key, facts={'expr': src, 'how': detail})
 
-    # structural formulas with pandas operands
+    # formulas over data-frame columns: interpreted with an abstract column algebra, compared through sympy
+    _frame_formulas(ctx)
+
+
+class _HFrame(Hooks):
+    """pandas / numpy calls on abstract frames."""
+
+    def __init__(self):
+        self.results = None
+        self.calls = []
+
+    def call(self, it, func, args, kwargs, node, env):
+        from ..interp import BoundMethod
+        if isinstance(func, Ext):
+            if func.name in ('pandas.concat',):
+                self.results = DF('results')
+                return self.results
+            if func.name in ('pandas.DataFrame',):
+                return DF('frame')
+            if func.name.startswith('numpy.'):
+                return CT(func.name.split('.')[-1], *[a for a in args if isinstance(a, (CT, int, float))])
+        if isinstance(func, Closure) and getattr(func.fn, 'name', '') in ('get_standard_error', 'get_word_error_rate',
+                                                                        'get_single_qubit_error_rate', 'deduce_bias'):
+            self.calls.append((func.fn.name, args))
+            return CT('call:' + func.fn.name, *args)
+        if isinstance(func, BoundMethod) and func.closure.fn.name in ('log', 'calculate_thresholds'):
+            self.calls.append((func.closure.fn.name, args, kwargs))
+            return None
+        return NOT_HANDLED
+
+
+def _frame_formulas(ctx: Ctx) -> None:
+    m = ctx.model
     ami, aci = _analysis(ctx)
-    fn = aci.methods['aggregate']
-    nf = [n for n in ast.walk(fn) if isinstance(n, ast.Assign) and ast.unparse(n.targets[0]).replace('"', "'") ==
-          "self._results['n_fail']"]
-    txt = ast.unparse(nf[0].value).replace(' ', '').replace('"', "'") if nf else ''
-    ctx.ob('R15.3', site_of(ami, nf[0]) if nf else site_of(ami, fn), 'n_fail = n_trials - sum(success)',
-           txt == "self._results['n_trials']-self._results['success'].apply(sum)", f'n_fail = {txt}',
-           key='Analysis.aggregate|n_fail', facts=txt)
-    fn = aci.methods['calculate_total_error_rates']
-    est = [n for n in ast.walk(fn) if isinstance(n, ast.Assign) and isinstance(n.targets[0], ast.Name)
-           and n.targets[0].id == 'estimator']
-    txt = ast.unparse(est[0].value).replace(' ', '').replace('"', "'") if est else ''
-    ctx.ob('R15.3', site_of(ami, est[0]) if est else site_of(ami, fn), 'p_est = 1 - mean(success)',
-           txt == "1-entry['success'].mean()", f'estimator = {txt}', key='calculate_total_error_rates|estimator', facts=txt)
-    fn = aci.methods['calculate_sector_thresholds']
-    body = ast.unparse(fn).replace(' ', '').replace('\n', '').replace('"', "'")
-    ok1 = "self._results[n_trials_label]=self._results['k']*self._results['codespace'].apply(sum)" in body
-    ok2 = "self._results[p_est_label]=self._results[n_fail_label]/self._results[n_trials_label]" in body
-    ctx.ob('R15.3', site_of(ami, fn), 'sector n_trials = k * sum(codespace)', ok1, 'expression not found',
-           key='calculate_sector_thresholds|n_trials')
-    ctx.ob('R15.3', site_of(ami, fn), 'sector p_est = n_fail_S / n_trials_S', ok2, 'expression not found',
-           key='calculate_sector_thresholds|p_est')
+    A = Algebra()
+    todo = []
+
+    def interp_method(name, setup):
+        fn = aci.methods.get(name)
+        ctx.need(fn is not None, 'R15.3', site_of(ami, aci.node), f'Analysis.{name} not found')
+        hooks = _HFrame()
+        it = Interp(m, hooks)
+
+        def thunk():
+            o = Obj(aci, 'analysis')
+            setup(o, hooks)
+            it.call_closure(Closure(fn, ami, aci), [], {}, fn, self_obj=o)
+            return o
+        outs = guard('R15.3', ami, fn)(lambda: it.explore(thunk))
+        ctx.need(len(outs) >= 1 and all(o_.kind == 'return' for o_ in outs), 'R15.3', site_of(ami, fn), f'{name}: {outs!r}')
+        return fn, outs[0].value, hooks
+
+    def stores_of(df):
+        return {k: v for k, v in df.stores if isinstance(k, str)}
+
+    # aggregate: n_fail
+    def setup_agg(o, hooks):
+        o.fields['raw'] = DF('raw')
+        o.fields['verbose'] = False
+    fn, o, hooks = interp_method('aggregate', setup_agg)
+    res = o.fields.get('_results')
+    ctx.need(isinstance(res, DF), 'R15.3', site_of(ami, fn), 'aggregate: result frame (pd.concat) not recognised')
+    st = stores_of(res)
+    ctx.need('n_fail' in st, 'R15.3', site_of(ami, fn), "aggregate: store of results['n_fail'] not found")
+    syms = {}
+    lhs = to_sympy(st['n_fail'], syms)
+    n_sym = syms.get(repr(CT('col', res, 'n_trials')))
+    s_sym = syms.get(repr(CT('apply', CT('col', res, 'success'), 'sum')))
+    if n_sym is None or s_sym is None:
+        ok, detail = _vocab_verdict(st['n_fail'], {'n_trials', 'success'}, {'sum'})
+        if ok is None:
+            raise AnalysisError('R15.3', site_of(ami, fn), f"n_fail = {st['n_fail']!r}: form not recognised")
+        ctx.ob('R15.3', site_of(ami, fn), 'n_fail = n_trials - sum(success)', False,
+               f"n_fail = {st['n_fail']!r}: {detail}", key='Analysis.aggregate|n_fail', facts=repr(st['n_fail']))
+    else:
+        todo.append((A.add(lhs, f'{n_sym} - {s_sym}', sorted(syms.values())), site_of(ami, fn),
+                     'n_fail = n_trials - sum(success)', 'Analysis.aggregate|n_fail', repr(st['n_fail'])))
+
+    # calculate_total_error_rates: estimator
+    fn = aci.methods.get('calculate_total_error_rates')
+    ctx.need(fn is not None, 'R15.3', site_of(ami, aci.node), 'calculate_total_error_rates not found')
+    hooks = _HFrame()
+    it = Interp(m, hooks)
+    entry = DF('entry')
+
+    class HIter(_HFrame):
+        def iterate(self, it_, value, node):
+            if isinstance(value, DF) and value.ops and value.ops[-1].startswith('iterrows'):
+                return [(0, entry)]
+            return NOT_HANDLED
+    hooks = HIter()
+    it = Interp(m, hooks)
+
+    def thunk():
+        o_ = Obj(aci, 'analysis')
+        o_.fields['_results'] = DF('results')
+        o_.fields['verbose'] = False
+        it.call_closure(Closure(fn, ami, aci), [], {}, fn, self_obj=o_)
+        return o_
+    outs = guard('R15.3', ami, fn)(lambda: it.explore(thunk))
+    se_calls = [c for c in hooks.calls if c[0] == 'get_standard_error']
+    ctx.need(len(se_calls) == 1, 'R15.3', site_of(ami, fn), f'calculate_total_error_rates: standard error calls {hooks.calls!r}')
+    est, ntr = se_calls[0][1][:2]
+    syms = {}
+    lhs = to_sympy(est, syms)
+    mean_sym = syms.get(repr(CT('mean', CT('col', entry, 'success'))))
+    if mean_sym is None:
+        ok, detail = _vocab_verdict(est, {'success'}, {'mean'})
+        if ok is None:
+            raise AnalysisError('R15.3', site_of(ami, fn), f'estimator = {est!r}: form not recognised')
+        ctx.ob('R15.3', site_of(ami, fn), 'p_est = 1 - mean(success)', False, f'estimator = {est!r}: {detail}',
+               key='calculate_total_error_rates|estimator', facts=repr(est))
+    else:
+        todo.append((A.add(lhs, f'1 - {mean_sym}', sorted(syms.values())), site_of(ami, fn), 'p_est = 1 - mean(success)',
+                     'calculate_total_error_rates|estimator', repr(est)))
+    ctx.ob('R15.3', site_of(ami, fn), 'p_se = get_standard_error(p_est, n_trials of the same entry)',
+           ntr == CT('col', entry, 'n_trials') and est is se_calls[0][1][0], f'second argument {ntr!r}',
+           key='calculate_total_error_rates|se-args', facts=repr(ntr))
+
+    # calculate_sector_thresholds
+    def setup_sec(o, hooks):
+        o.fields['_results'] = DF('results')
+        o.fields['verbose'] = False
+    fn, o, hooks = interp_method('calculate_sector_thresholds', setup_sec)
+    res = o.fields['_results']
+    st = stores_of(res)
+    for sector in ('X', 'Z'):
+        nt, nf, pe, ps = (f'n_trials_{sector}', f'n_fail_{sector}', f'p_est_{sector}', f'p_se_{sector}')
+        ctx.need(all(k in st for k in (nt, nf, pe, ps)), 'R15.3', site_of(ami, fn),
+                 f'sector columns for {sector} not all stored: {sorted(st)}')
+        want_nt = CT('mul', *sorted((CT('col', res, 'k'), CT('apply', CT('col', res, 'codespace'), 'sum')), key=repr))
+        ok = st[nt] == want_nt
+        if not ok and _vocab_verdict(st[nt], {'k', 'codespace'}, {'sum'})[0] is None:
+            raise AnalysisError('R15.3', site_of(ami, fn), f'{nt} = {st[nt]!r}: form not recognised')
+        ctx.ob('R15.3', site_of(ami, fn), f'sector {sector}: n_trials = k * sum(codespace)', ok, f'{nt} = {st[nt]!r}',
+               key=f'calculate_sector_thresholds|n_trials[{sector}]', facts=repr(st[nt]))
+        want_pe = CT('div', CT('col', res, nf), CT('col', res, nt))
+        ok = st[pe] == want_pe
+        if not ok and _vocab_verdict(st[pe], {nf, nt}, set())[0] is None:
+            raise AnalysisError('R15.3', site_of(ami, fn), f'{pe} = {st[pe]!r}: form not recognised')
+        ctx.ob('R15.3', site_of(ami, fn), f'sector {sector}: p_est = n_fail / n_trials of that sector', ok, f'{pe} = {st[pe]!r}',
+               key=f'calculate_sector_thresholds|p_est[{sector}]', facts=repr(st[pe]))
+        v = st[nf]
+        ok = isinstance(v, CT) and v.op == 'apply' and isinstance(v.args[0], CT) and v.args[0].op == 'cols' \
+            and tuple(v.args[0].args[1]) == ('effective_error', 'codespace') \
+            and 'count_fails(*row,sector)' in str(v.args[1]).replace(' ', '')
+        ctx.ob('R15.3', site_of(ami, fn), f'sector {sector}: n_fail = count_fails(effective_error, codespace, sector) per row', ok,
+               f'{nf} = {v!r}', key=f'calculate_sector_thresholds|n_fail[{sector}]', facts=repr(v))
+        okse = st[ps] == CT('call:get_standard_error', CT('col', res, pe), CT('col', res, nt))
+        ctx.ob('R15.3', site_of(ami, fn), f'sector {sector}: p_se = get_standard_error(p_est_S, n_trials_S)', okse,
+               f'{ps} = {st[ps]!r}', key=f'calculate_sector_thresholds|p_se[{sector}]', facts=repr(st[ps]))
+        thr = [c for c in hooks.calls if c[0] == 'calculate_thresholds' and c[2].get('sector') == sector]
+        okt = len(thr) == 1 and thr[0][2].get('p_est') == pe and thr[0][2].get('n_trials_label') == nt \
+            and thr[0][2].get('n_fail_label') == nf
+        ctx.ob('R15.3', site_of(ami, fn), f'sector {sector}: thresholds computed from that sector\'s columns', okt,
+               f'calculate_thresholds called with {[c[2] for c in thr]!r}', key=f'calculate_sector_thresholds|threshold-args[{sector}]')
+
+    res_q = A.solve('R15.3')
+    for (qi, site, what, key, src) in todo:
+        ok, detail = verdict(res_q[qi])
+        if ok is None:
+            raise AnalysisError('R15.3', site, f'{what}: {detail}')
+        ctx.ob('R15.3', site, what, ok, f'code computes {src}; {detail}', key=key, facts={'expr': src, 'how': detail})
+
+
+def _vocab_verdict(t, cols: set, funcs: set):
+    """(False, why) if the term is built only from known arithmetic, columns and reductions (so it is a
+    definite, different formula); (None, '') if it uses vocabulary the rule does not understand."""
+    known_ops = {'add', 'sub', 'mul', 'div', 'pow', 'neg', 'col', 'apply', 'mean', 'sum', 'any', 'all', 'min', 'max'}
+
+    def walk(x):
+        if isinstance(x, CT):
+            if x.op not in known_ops:
+                return False
+            if x.op == 'apply' and not (isinstance(x.args[1], str) and x.args[1] in {'sum', 'len', 'mean', 'any', 'all', 'min', 'max'}):
+                return False
+            return all(walk(a) for a in x.args if isinstance(a, CT))
+        return True
+    if walk(t):
+        return False, 'a different formula over the same kind of columns/reductions'
+    return None, ''
 
 
 def _idents(src: str) -> Set[str]:
